@@ -851,9 +851,11 @@ def as_min(body, op, depth=4):
         if kind == "call" and (payload.decl_s or "").split("::")[-1] == "min" and len(payload.args) == 2:
             return (payload.args[0], payload.args[1])
         return None
-    if len(ds) == 2 and all(d[2] == "assign" and d[3]["rv"]["k"] == "use" for d in ds):
-        (b1, _, _, p1), (b2, _, _, p2) = ds
-        x, y = p1["rv"]["a"][0], p2["rv"]["a"][0]
+    if len(ds) == 2 and all((d[2] == "assign" and d[3]["rv"]["k"] == "use") or d[2] == "call" for d in ds):
+        (b1, _, k1, p1), (b2, _, k2, p2) = ds
+        # a value produced directly by a call (`n = bytes.len()` in one arm) is represented by that call
+        x = p1["rv"]["a"][0] if k1 == "assign" else {"callval": p1}
+        y = p2["rv"]["a"][0] if k2 == "assign" else {"callval": p2}
         for cd in conds(body):
             if cd.kind != "cmp" or cd.op not in ("Lt", "Le", "Gt", "Ge"):
                 continue
@@ -875,6 +877,9 @@ def as_min(body, op, depth=4):
 def _same_operand_value(body, a, b_, depth=4):
     """Do two operands denote the same value (same constant, same place, or single-definition copies of one)?"""
     def canon(o, d):
+        if "callval" in o:
+            c_ = o["callval"]
+            return ("call", c_.name, tuple(canon(x, d - 1) for x in c_.args))
         c = o.get("const")
         if c is not None:
             return ("c", c.get("v"), c.get("def"))
@@ -888,9 +893,18 @@ def _same_operand_value(body, a, b_, depth=4):
             if len(ds) == 1 and ds[0][2] == "call":
                 c_ = ds[0][3]
                 return ("call", c_.name, tuple(canon(x, d - 1) for x in c_.args))
+            if len(ds) == 1 and ds[0][2] == "assign" and ds[0][3]["rv"]["k"] in ("ref", "rawptr"):
+                from .core import place_key as _pk
+                rp = ds[0][3]["rv"]["place"]
+                if not [p for p in rp["p"] if p != "*"]:
+                    return ("ref",) + (canon({"copy": {"l": rp["l"], "p": []}}, d - 1) or ("?",))
+                return ("ref", _pk(rp))
         from .core import place_key
         return ("p", place_key(pl))
-    return canon(a, depth) is not None and canon(a, depth) == canon(b_, depth)
+    # (structural equality of the defining expressions; generous depth so that both sides bottom out at places
+    # or constants rather than at the depth limit)
+    ca, cb = canon(a, 12), canon(b_, 12)
+    return ca is not None and ca == cb
 
 
 def comparison_sites(body, pred, prov=None):
